@@ -500,6 +500,7 @@ func AccMap(m interface{}, kind int, site string) {
 
 // RWMutex is the shim for sync.RWMutex.
 type RWMutex struct {
+	owner   *Sched // the scheduler this simulated state belongs to (package-level locks outlive a run)
 	real    sync.RWMutex
 	writer  *Task
 	readers []*Task
@@ -539,6 +540,13 @@ func (m *RWMutex) canLock() bool { return m.writer == nil && len(m.readers) == 0
 
 func (m *RWMutex) canRLock(t *Task) bool { return m.writer == nil && m.pending == 0 }
 
+// adopt resets the simulated state of a lock that was last used under another scheduler (an earlier run).
+func (m *RWMutex) adopt(s *Sched) {
+	if m.owner != s {
+		m.owner, m.writer, m.readers, m.pending, m.relW, m.relR = s, nil, nil, 0, nil, nil
+	}
+}
+
 func sim() (*Sched, *Task) {
 	if s := S; s != nil && s.cur != nil {
 		return s, s.cur
@@ -553,6 +561,7 @@ func (m *RWMutex) Lock() {
 		m.real.Lock()
 		return
 	}
+	m.adopt(s)
 	s.yield("Lock " + m.name())
 	if !m.canLock() {
 		m.pending++
@@ -581,6 +590,7 @@ func (m *RWMutex) Unlock() {
 		m.real.Unlock()
 		return
 	}
+	m.adopt(s)
 	if m.writer != t {
 		panic("simrt: Unlock of RWMutex not write-locked by this task")
 	}
@@ -598,6 +608,7 @@ func (m *RWMutex) RLock() {
 		m.real.RLock()
 		return
 	}
+	m.adopt(s)
 	s.yield("RLock " + m.name())
 	if !m.canRLock(t) {
 		s.BlockedRW++
@@ -621,6 +632,7 @@ func (m *RWMutex) RUnlock() {
 		m.real.RUnlock()
 		return
 	}
+	m.adopt(s)
 	idx := -1
 	for i, r := range m.readers {
 		if r == t {
@@ -676,6 +688,7 @@ func (o *Once) Do(f func()) {
 type Pool struct {
 	New   func() interface{}
 	real  sync.Pool
+	owner *Sched
 	items []poolItem
 }
 
@@ -697,10 +710,19 @@ func (p *Pool) Get() interface{} {
 		return nil
 	}
 	s.yield("Pool.Get")
+	if p.owner != s {
+		// items pooled during an earlier run keep their values but not that run's clocks
+		p.owner = s
+		for i := range p.items {
+			p.items[i].vc = nil
+		}
+	}
 	if n := len(p.items); n > 0 {
 		it := p.items[n-1]
 		p.items = p.items[:n-1]
-		join(t.vc, it.vc)
+		if it.vc != nil {
+			join(t.vc, it.vc)
+		}
 		return it.v
 	}
 	if p.New != nil {
@@ -715,6 +737,12 @@ func (p *Pool) Put(v interface{}) {
 	if s == nil {
 		p.real.Put(v)
 		return
+	}
+	if p.owner != s {
+		p.owner = s
+		for i := range p.items {
+			p.items[i].vc = nil
+		}
 	}
 	p.items = append(p.items, poolItem{v, append([]uint32(nil), t.vc...)})
 	t.vc[t.ID]++
